@@ -21,6 +21,7 @@ OWNERS = {
     'C14': ['C14.'],
     'C15': ['C15.'],
     'C19': ['C19.'],
+    'C08': ['C08.'],
 }
 
 
@@ -425,6 +426,109 @@ def fam_parser(rule, mix):
     return dict(run=run_parser, trace_module='Parser_Trace', rule=rule, assumptions=PARSER_ASSUME, mix=mix)
 
 
+
+# ----------------------------------------------------------------------------
+# Wrap family: C08
+# ----------------------------------------------------------------------------
+def wrap_ops_to_script(tid, ops, kind, binary, tags=()):
+    begin = ops[0]
+    cfg = {k: v for k, v in begin.items() if k != 'op'}
+    cfg['kind'] = kind
+    cfg.update(TINY[kind])
+    if binary:
+        # the model's source bytes are 1,2,3,... (all distinct); fold them so
+        # that the real parsers find matches
+        cfg['src'] = [(x * 7 // 3) % 2 for x in cfg['src']]
+    cfg['eofwith'] = False
+    # the reader's choices ("r" entries) become the reader script
+    cfg['rcalls'] = [[o['k'], o['ec']] for o in ops[1:] if o['op'] == 'r']
+    calls = [o for o in ops[1:] if o['op'] != 'r']
+    return dict(tid=tid, comp='wrap', cfg=cfg, ops=calls, tags=list(tags) + [kind])
+
+
+def wrap_mutants(evs):
+    if any(e['op'] in ('panic', 'timeout', 'livelock') for e in evs):
+        return
+    for i, e in enumerate(evs):
+        if e['op'] == 'wparse' and e.get('lits') and e['err'] == '':
+            m = copy.deepcopy(evs)
+            m[i]['lits'][-1] = (m[i]['lits'][-1] + 1) % 256
+            yield 'flipbyte', m
+            break
+    for i, e in enumerate(evs):
+        if e['op'] == 'wparse' and e['err'] == '' and e['n'] > 0 and any(x['op'] == 'wparse' and x['err'] == '' for x in evs[i + 1:]):
+            m = copy.deepcopy(evs)
+            del m[i]
+            yield 'delevent', m
+            break
+    for i, e in enumerate(evs):
+        if e['op'] == 'wparse' and e['err'] == '' and e.get('reads') and any(c[1] > 0 for c in e['reads']):
+            m = copy.deepcopy(evs)
+            for c in m[i]['reads']:
+                if c[1] > 0:
+                    c[3][0] = (c[3][0] + 1) % 256
+                    break
+            yield 'flipread', m
+            break
+
+
+def wrap_features(evs):
+    f = set()
+    kind = evs[0]['c']['kind']
+    B = evs[0]['c']['B']
+    total = 0
+    for e in evs[1:]:
+        op = e['op']
+        if op in ('panic', 'timeout', 'livelock'):
+            f.add(op)
+        elif op in ('wparse', 'wparsenil'):
+            rd = e.get('reads') or []
+            total += sum(c[1] for c in rd)
+            if any(c[2] in ('reader', 'reader2') for c in rd):
+                f.add('reader_fault')
+                if any(c[2] in ('reader', 'reader2') and c[1] > 0 for c in rd):
+                    f.add('fault_with_data')
+            if any(c[2] == 'eof' and c[1] > 0 for c in rd):
+                f.add('data_with_eof')
+            if len(rd) > 1:
+                f.add('short_reads')
+            if e['err'] in ('reader', 'reader2'):
+                f.add('error_returned')
+            if op == 'wparse' and e.get('seqs'):
+                f.add('match')
+                f.add('match_' + kind)
+            if op == 'wparsenil' and e['n'] > 0:
+                f.add('skip')
+        elif op == 'shrink' and e['delta'] > 0:
+            f.add('discard')
+        elif op == 'wreset':
+            f.add('wreset')
+    if total > B:
+        f.add('refill')
+    return f
+
+
+def run_wrap(ctx, fam):
+    t = ctx.thorough()
+    log('[%s] design model check (WrappedParser loop over the ParserBuffer design with a faulty reader refines the Wrap envelope; termination)' % ctx.prop)
+    vlib.tlc_mc(ctx, 'WrapMC.tla', 'WrapMC_T.cfg' if t else 'WrapMC.cfg', workers='16')
+    scripts = []
+    log('[%s] generating histories' % ctx.prop)
+    walks = vlib.tlc_walks(ctx, 'WrapMC.tla', 'WrapWalk.cfg', num=(900 if t else 150), depth=80, seed=ctx.seed)
+    for i, ops in enumerate(walks):
+        kind = KINDS[i % len(KINDS)]
+        scripts.append(wrap_ops_to_script('wrap-walk-%d-%d' % (ctx.seed, i), ops, kind, i % 3 != 0, ['tlc-walk']))
+    scripts += vlib.go_gen(ctx, 'wrap', 2400 if t else 400, ctx.seed)
+    scripts += corpus_scripts('wrap')
+    return finish(ctx, fam, scripts, 'Wrap_Trace', wrap_mutants, wrap_features)
+
+
+WRAP_ASSUME = [
+    'TLC evaluates the Wrap and ParserSM envelopes correctly; the recorder logs every WrappedParser.Parse call with its results and every reader call made inside it (binding self-test), and a proxy lz.Parser logs the calls the wrapper makes on the inner parser',
+    'the reader conforms to io.Reader and never returns (0, nil); io.EOF is sticky',
+    'recorded streams are <= 600 bytes, buffers <= 300 bytes',
+]
+
 MIX_GENERAL = dict(walks=140, go=[('parser', 350), ('parser-runs', 49)])
 
 def fam_dbuf(rule):
@@ -432,6 +536,8 @@ def fam_dbuf(rule):
 
 
 PROPS = {
+    'C08': dict(run=run_wrap, trace_module='Wrap_Trace', assumptions=WRAP_ASSUME,
+                rule='histories = TLC random walks of WrapMC (calls x reader chunking / fault / EOF choices) run on all seven parsers + seeded Go histories (inputs shorter/longer than BufferSize, exact multiples of BlockSize/BufferSize, whole / single-byte / random short reads, data together with io.EOF, 1-3 reader faults with and without data, nil blocks, NoTrailingLiterals, WrappedParser.Reset with a second stream); rules C08.* (roundtrip over the bytes the reader handed out, progress, err_after_delivery, err_is_readers, eof_when_done, eof_sticky, layers_agree); non-trivial = distinct script with a refill, reader fault, data+EOF, match, skip or wreset'),
     'C01': fam_parser('histories = TLC random walks of ParserBufMC (Write/ReadFrom chunkings and reader errors/Parse/Parse(nil)/Shrink/Reset/probes) instantiated for all seven parsers with the smallest gram sizes + seeded Go histories (11 input classes incl. runs of 0x00, periodic, Fibonacci, Thue-Morse, de Bruijn; tiny geometries in every order relation; pump loop with random flags, skips, shrinks, resets); rule C01.expand: every block expands on top of what a decoder holds to exactly the next n input bytes; non-trivial = distinct script whose trace has a match, a discard, a skip, NoTrailingLiterals with a match, a reset or a reader fault', MIX_GENERAL),
     'C02': fam_parser('same recordings as C01; rules C02.* on every emitted sequence at its absolute position (offset >= 1, <= WindowSize, <= position; length >= minimum, <= MaxMatchLen for OSAP; Aux = 0; LitLen sum <= literals)', MIX_GENERAL),
     'C03': fam_parser('same recordings as C01; rules C03.* (ErrEmptyBuffer iff nothing unparsed, emptied block, 1 <= n <= min(BlockSize, unparsed), Block.Len() = n, NoTrailingLiterals leaves no trailing literals); contiguity is the C01 equation of the next block', MIX_GENERAL),
